@@ -13,6 +13,7 @@ import CedarVerif.Driver.Ops.Ffi
 import CedarVerif.Driver.Ops.Tyck
 import CedarVerif.Driver.Ops.SchemaSyntax
 import CedarVerif.Driver.Ops.SymCC
+import CedarVerif.Driver.Ops.SymCompile
 import CedarVerif.Driver.Ops.Level
 import CedarVerif.Driver.Ops.Tpe
 import CedarVerif.Driver.Ops.Manifest
@@ -41,6 +42,7 @@ def handlers : List (Sexp → Option String) := [
   Ops.handleTyck,
   Ops.handleSchemaSyntax,
   Ops.SymCCOp.handleSymCC,
+  Ops.SymCompileOp.handleSymC,
   Ops.Level.handleLevel,
   Ops.Tpe.handleTpe,
   Ops.ManifestOps.handleManifest,
